@@ -12,6 +12,7 @@ pub mod c07;
 pub mod c03;
 pub mod c15;
 pub mod c16;
+pub mod c14;
 
 pub fn meta(id: &str, tier: &str) -> Option<CheckMeta> {
     match id {
@@ -26,6 +27,7 @@ pub fn meta(id: &str, tier: &str) -> Option<CheckMeta> {
         "C03" => Some(c03::meta(tier)),
         "C15" => Some(c15::meta(tier)),
         "C16" => Some(c16::meta(tier)),
+        "C14" => Some(c14::meta(tier)),
         _ => None,
     }
 }
@@ -57,6 +59,7 @@ pub fn worker(ctx: &Ctx, res: &mut ShardResult) {
         "C03" => c03::worker(ctx, res),
         "C15" => c15::worker(ctx, res),
         "C16" => c16::worker(ctx, res),
+        "C14" => c14::worker(ctx, res),
         _ => panic!("unknown check"),
     }
 }
@@ -78,6 +81,7 @@ pub fn replay(path: &str) -> i32 {
         "C03" => c03::replay(&v["case"]),
         "C15" => c15::replay(&v["case"]),
         "C16" => c16::replay(&v["case"]),
+        "C14" => c14::replay(&v["case"]),
         _ => vec![format!("no replayer for {}", id)],
     };
     let _ = json!(null);
